@@ -277,6 +277,25 @@ Example C11_example_self_reference :
   parse_templates (fun _ => all_params) ex_env (set ex_defaults PStruct (B "{{.StructName}}x")) = Err InfiniteLoop.
 Proof. vm_compute. reflexivity. Qed.
 
+(* printer and parser agree on a template that uses every construct of the subset (the
+   parser additionally records the empty text between adjacent actions); not proved in
+   general - the general statement proved about concrete syntax is C11_quote *)
+Definition ex_tmpl : tmpl :=
+  [Lit (B "mock_"); Action [{| c_head := HArg (AField (B "InterfaceName")); c_args := [] |};
+                            {| c_head := HFn (B "trimPrefix"); c_args := [AStr (B "I")] |};
+                            {| c_head := HFn (B "lower"); c_args := [] |}];
+   Action [{| c_head := HFn (B "base"); c_args := [AField (B "InterfaceDir")] |}];
+   Lit (B "}}.go{x"); Action [{| c_head := HArg (AStr (B "{{")); c_args := [] |}]].
+Example C11_print_parse_example :
+  print ex_tmpl = B "mock_{{.InterfaceName | trimPrefix ""I"" | lower}}{{base .InterfaceDir}}}}.go{x{{""{{""}}" /\
+  (match parse (print ex_tmpl) with
+   | POk t => filter (fun p => match p with Lit [] => false | _ => true end) t
+   | _ => [] end) = ex_tmpl /\
+  render (bind ex_env []) (print ex_tmpl) = ROk (B "mock_foosub}}.go{x{{").
+Proof. vm_compute. repeat split. Qed.
+(* (a text piece ending in "{" directly before an action would print as "{{{": the
+   printer is only meant for templates whose text pieces do not end in "{") *)
+
 (* Resource use is outside the model (Coq lists have no size limit): a value that mentions
    itself k times is multiplied by k in every pass.  With k = 3 it has 3^4 times its size
    after 4 of the 20 passes (known finding C11-exponential-self-reference: the real
